@@ -80,9 +80,9 @@ def c04_plans(s, ctx, sym, quick):
     mt = s["entry"].endswith("_mt")
     P = []
     if n <= 3000 and (s.get("cap") or 0) <= 9000:
-        P.append({"k": "byte1", "z": rng.choice((0, 3)), "rec": n <= 48})
+        P.append({"k": "byte1", "z": rng.choice((0, 3)), "rec": n <= 48, "xw": True})
     else:
-        P.append({"k": "in1"})
+        P.append({"k": "in1", "xw": True})
     for pl in rng.sample(sym, 2 if quick else 10):
         c = S6.concretise(pl, bounds, n, rng)
         c["rec"] = True
@@ -92,7 +92,7 @@ def c04_plans(s, ctx, sym, quick):
         if rng.random() < (0.3 if quick else 1.0):
             pts.add(b + rng.choice((-1, 0, 1)))
     for k in sorted(p for p in pts if 0 <= p <= n):
-        P.append({"k": "two", "at": k})
+        P.append({"k": "two", "at": k, "xw": True})
     for _ in range(2 if quick else 5):
         at = (rng.choice(bounds) + rng.choice((-1, 0, 1))) if bounds and rng.random() < 0.6 else rng.randint(0, n)
         P.append({"k": "starve", "at": max(0, min(n, at)), "n": 10 if mt else 6, "rec": True})
